@@ -31,15 +31,15 @@ PROPS = {
     'C11': ['dispatch', 'asyncsched', 'registry', 'client', 'loopback'],
     'C12': ['dispatch'],
     'C15': ['registry'],
-    'C07': ['loopback', 'asyncsched'],
-    'C08': ['client'],
+    'C07': ['loopback', 'asyncsched', 'httploop'],
+    'C08': ['client', 'httploop'],
     'C09': ['client'],
     'C19': ['client'],
     'C13': ['history'],
     'C14': ['validators'],
     'C16': ['specs'],
     'C17': ['specbind'],
-    'C18': ['http'],
+    'C18': ['http', 'httploop'],
     'C20': ['mocker'],
     'C10': ['asyncsched'],
     'C05': ['msg'],
